@@ -114,6 +114,10 @@ impl<'a> TirGen<'a> {
             Type::List => "list",
             _ => "custom",
         };
+        // ... nor to one type per name: the same name may be referenced with two types
+        if self.t.chance(1, 12) {
+            return "p_shared".to_string();
+        }
         // an IR a client sends is not bound to the lower-case names the tx3 front end emits
         match self.t.draw(4) {
             0 => format!("P_{}{}", tag.to_uppercase(), self.t.draw(3)),
@@ -140,7 +144,8 @@ impl<'a> TirGen<'a> {
             4 => Type::UtxoRef,
             5 => Type::Undefined,
             6 => Type::List,
-            _ => Type::Custom("Rec".into()),
+            // user-defined type names, including ones that read like built-in types
+            _ => Type::Custom(self.t.pick(&["Rec", "Unit", "Rec", "Int", "List", "Utxo", "Map", "Undefined"]).to_string()),
         }
     }
 
@@ -150,7 +155,16 @@ impl<'a> TirGen<'a> {
             1 => Expression::Number(some_int(self.t)),
             2 => Expression::Bytes(some_bytes(self.t)),
             3 => Expression::Bool(self.t.chance(1, 2)),
-            4 => Expression::String(self.t.pick(&["", "abc", "dead#1", "00#0", "addr_test1xyz", "é"]).to_string()),
+            4 => {
+                if self.t.chance(1, 6) {
+                    // long text with multi-byte characters around the 64-byte marks
+                    let pad = *self.t.pick(&[63usize, 62, 64, 127, 61]);
+                    let tail = *self.t.pick(&["ña (ref 77)", "日本語のメモ", "é", "😀😀", "plain ascii tail"]);
+                    Expression::String(format!("{}{}", "m".repeat(pad), tail))
+                } else {
+                    Expression::String(self.t.pick(&["", "abc", "dead#1", "00#0", "addr_test1xyz", "é"]).to_string())
+                }
+            }
             5 => Expression::Address(some_bytes(self.t)),
             6 => Expression::Hash(some_bytes(self.t)),
             7 => Expression::UtxoRefs((0..self.t.index(3)).map(|_| some_ref(self.t)).collect()),
